@@ -24,10 +24,11 @@ PROPS = {
     "C06": ["ReadIndexSafe", "ReadIndexRespSafe", "ReadIndexMechanism"],
     "C07": ["OneCCAtATime", "RemovedNeverReadmitted", "KindsDisjoint", "MembershipHasVoter",
             "KindOnlyPromotes", "ElectionSafety", "NoTwoLeadersNow", "CommittedAgree",
-            "ApplyAgreement"],
+            "ApplyAgreement", "SnapshotMembershipInstalled"],
     "C17": ["BoundedProgress"],
     "C18": ["OnlyVotersLead", "NonVotingWitnessRoles", "ElectionQuorum", "CommitQuorum",
-            "WitnessNoPayload", "WitnessLogMeta", "ReadIndexMechanism", "CheckQuorumLease"],
+            "WitnessNoPayload", "WitnessLogMeta", "ReadIndexMechanism", "CheckQuorumLease",
+            "SnapshotMembershipInstalled"],
 }
 
 # which internal assertion (panic) of the code under test is attributed to which property
